@@ -179,7 +179,8 @@ def _run_pair(ctx, spec, rng):
     if "fidelity" in lib and "trace_distance" in lib:
         fl, tl = lib["fidelity"], lib["trace_distance"]
         if abs(tl - m["trace_distance"]) <= T2:  # only meaningful where the value itself is right (else O1 already reported)
-            ctx.check("O2:fuchs-van-de-graaf", 1 - fl <= tl + T2 and tl <= np.sqrt(max(0.0, 1 - fl ** 2)) + 1e-3 * (fl > 1 - 1e-9) + T2, sig=sig_, nt=nt,
+            # upper bound compared in squared form: near F = 1 the square root amplifies the 1e-8 error of the computed fidelity
+            ctx.check("O2:fuchs-van-de-graaf", 1 - fl <= tl + T2 and tl ** 2 <= 1 - fl ** 2 + T2, sig=sig_, nt=nt,
                       mech="fidelity-trace-distance:fuchs-van-de-graaf-violated", detail=dict(det, F=fl, T=tl))
         if cls == "identical":
             ctx.check("O2:extremes", abs(fl - 1) <= T2 and abs(tl) <= T2, sig=("identical", d, cplx), nt=True, mech="extremes:identical-states", detail=dict(det, F=fl, T=tl))
